@@ -5,8 +5,6 @@
 package h264writer
 
 import (
-	"bytes"
-	"encoding/binary"
 	"io"
 	"os"
 
@@ -86,23 +84,31 @@ func (h *H264Writer) Close() error {
 func isKeyFrame(data []byte) bool {
 	const (
 		typeSTAPA       = 24
+		typeFUA         = 28
+		typeIDR         = 5
 		typeSPS         = 7
 		naluTypeBitmask = 0x1F
+		fuStartBitmask  = 0x80
 	)
 
-	var word uint32
-
-	payload := bytes.NewReader(data)
-	if err := binary.Read(payload, binary.BigEndian, &word); err != nil {
+	// payloads shorter than a 32 bit word were never treated as keyframes
+	if len(data) < 4 {
 		return false
 	}
 
-	naluType := (word >> 24) & naluTypeBitmask
-	if naluType == typeSTAPA && word&naluTypeBitmask == typeSPS {
-		return true
-	} else if naluType == typeSPS {
-		return true
+	// A stream can be decoded from the first SPS or IDR on.
+	isKeyNALU := func(naluType byte) bool {
+		return naluType == typeSPS || naluType == typeIDR
 	}
 
-	return false
+	switch naluType := data[0] & naluTypeBitmask; naluType {
+	case typeSTAPA:
+		// STAP-A header (1 byte), NALU size (2 bytes), first NALU
+		return isKeyNALU(data[3] & naluTypeBitmask)
+	case typeFUA:
+		// FU indicator (1 byte), FU header (1 byte): S|E|R|type
+		return data[1]&fuStartBitmask != 0 && isKeyNALU(data[1]&naluTypeBitmask)
+	default:
+		return isKeyNALU(naluType)
+	}
 }
